@@ -94,6 +94,7 @@ class SExc:
         self.args = tuple(args)
         self.kwargs = dict(kwargs or {})
         self.line = line
+        self.origin = None  # qualified name of the function in which it was raised
 
     def __repr__(self):
         return f"SExc({self.cls.__name__}@{self.line})"
